@@ -90,6 +90,8 @@ pub fn run_property(ctx: &Ctx) -> Option<Report> {
             if mon == Monitor::C16 {
                 // the same isolation on the real UDP transport (foreign SYN -> exactly BadCluster)
                 r.push(srv::udp_smoke(ctx));
+                sim::run_foreign(ctx, &mut r);
+                r.rule.push_str("; sub-check foreign-syn-runs: cases = (own cluster id of 0..1,024 bytes, a related foreign id: own+suffix / prefix / case variant / one character changed, a run of 1..1,030 foreign SYNs): each is answered with a rejection and changes nothing; non-trivial = every case");
             }
             if mon == Monitor::C01 {
                 // the statement's size assumption made tight: a key-value that exactly fits
@@ -178,6 +180,9 @@ pub fn run_property(ctx: &Ctx) -> Option<Report> {
             r.assume("single-threaded paused runtime: the schedule is a function of the script; genuinely parallel interleavings of the tokio mutex are not explored");
             r.assume("a virtual-time timeout of 1 h means deadlock/stall (deterministic); real-time timeouts in the UDP smoke are inconclusive, never a violation");
             srv::run(ctx, &mut r);
+            // per-destination send failures must not truncate a round (server-level targets)
+            srv::run_targets(ctx, &mut r);
+            r.rule.push_str("; sub-check server-round-targets: the real server with 0..12 peers, per-destination send failures, seeds: every round still reaches its other targets and ends with a liveness evaluation");
             r
         }
         _ => return None,
@@ -207,7 +212,10 @@ pub fn replay_property(ctx: &Ctx, sub: &str, case: &serde_json::Value) -> SubRes
         "C08" => wirecheck::replay(ctx, sub, case),
         "C14" => pairs::replay_c14(ctx, sub, case),
         "C18" => catchup::replay(ctx, sub, case),
-        "C19" => srv::replay(ctx, sub, case),
+        "C19" => match sub {
+            "server-round-targets" => srv::replay_targets(ctx, sub, case),
+            _ => srv::replay(ctx, sub, case),
+        },
         "C09" => match sub {
             "event-during-handle-drop" => listen::replay_slow_drop(ctx, sub, case),
             _ => hostile::replay(ctx, sub, case),
@@ -244,6 +252,7 @@ pub fn replay_property(ctx: &Ctx, sub: &str, case: &serde_json::Value) -> SubRes
         "C13" => sim::replay(ctx, sub, case, Monitor::C13),
         "C16" => match sub {
             "udp-loopback-smoke" => srv::udp_smoke(ctx),
+            "foreign-syn-runs" => sim::replay_foreign(ctx, sub, case),
             _ => sim::replay(ctx, sub, case, Monitor::C16),
         },
         _ => {
